@@ -35,6 +35,7 @@ class Script:
         else:
             self.commands = commands
         self.raw = None
+        self._raw_commands = None
 
     def __repr__(self):
         result = ""
@@ -118,6 +119,9 @@ class Script:
                     obj.raw = raw
             except ValueError:
                 obj.raw = raw
+        if obj.raw:
+            # the bytes stand for these commands only (see raw_serialize)
+            obj._raw_commands = commands[:]
         return obj
 
     @classmethod
@@ -126,7 +130,8 @@ class Script:
         return cls.parse(raw=bytes.fromhex(hex_str))
 
     def raw_serialize(self):
-        if self.raw:
+        # the original bytes only stand for the commands they were parsed into
+        if self.raw and self.commands == self._raw_commands:
             return self.raw
         # initialize what we'll send back
         result = b""
